@@ -114,11 +114,13 @@ Proof. exact upd_idempotent. Qed.
 Print Assumptions C15_update_idempotent.
 
 (* ---- documents WITH priority tags (extension round) ----
-   Repeating the last document of any history of mapping documents whose scalars and enclosing mappings carry arbitrary priorities
-   (the class of C03_merge_is_prioritised_update) changes nothing: both builds succeed and the trees have the same priority image -
+   Repeating the last document of any history of mapping documents whose scalars, whole lists and enclosing mappings carry arbitrary
+   priorities (the class of C03_merge_is_prioritised_update; hcompat: no mapping meets a list at the same path - vacuous without lists)
+   changes nothing: both builds succeed and the trees have the same priority image -
    every value AND every node priority *)
 Theorem C15_idempotent_last_prioritised : forall e s0 sts last,
   Forall MergePrio.NewZ (s0 :: sts ++ [last]) -> forallb is_dictk (s0 :: sts ++ [last]) = true ->
+  UpdateP.hcompat (MergePrio.perase s0) (map MergePrio.perase (sts ++ [last])) ->
   exists n m, flatten e (s0 :: sts ++ [last]) = Ok n /\ flatten e (s0 :: (sts ++ [last]) ++ [last]) = Ok m /\
               MergePrio.perase m = MergePrio.perase n.
 Proof. exact PrioLaws.repeat_last_prio. Qed.
@@ -128,6 +130,8 @@ Print Assumptions C15_idempotent_last_prioritised.
    value and no node priority below the root (the root's own priority is the only thing it can raise) *)
 Theorem C15_empty_neutral_prioritised : forall e s0 l1 l2 fE xE,
   Forall MergePrio.NewZ (s0 :: l1 ++ Comp CDict fE xE [] :: l2) -> forallb is_dictk (s0 :: l1 ++ l2) = true ->
+  UpdateP.hcompat (MergePrio.perase s0) (map MergePrio.perase (l1 ++ Comp CDict fE xE [] :: l2)) ->
+  UpdateP.hcompat (MergePrio.perase s0) (map MergePrio.perase (l1 ++ l2)) ->
   exists n m, flatten e (s0 :: l1 ++ Comp CDict fE xE [] :: l2) = Ok n /\ flatten e (s0 :: l1 ++ l2) = Ok m /\
               PrioLaws.kids (MergePrio.perase n) = PrioLaws.kids (MergePrio.perase m).
 Proof. exact PrioLaws.empty_doc_neutral_flatten. Qed.
@@ -139,6 +143,7 @@ Theorem C15_key_order_neutral_prioritised : forall e s0 sts s0' sts',
   Forall MergePrio.NewZ (s0 :: sts) -> Forall MergePrio.NewZ (s0' :: sts') ->
   forallb is_dictk (s0 :: sts) = true -> forallb is_dictk (s0' :: sts') = true ->
   Forall2 PrioOrder.peqvp (map MergePrio.perase (s0 :: sts)) (map MergePrio.perase (s0' :: sts')) ->
+  UpdateP.hcompat (MergePrio.perase s0) (map MergePrio.perase sts) -> UpdateP.hcompat (MergePrio.perase s0') (map MergePrio.perase sts') ->
   exists n m, flatten e (s0 :: sts) = Ok n /\ flatten e (s0' :: sts') = Ok m /\ PrioOrder.peqvp (MergePrio.perase n) (MergePrio.perase m).
 Proof. exact PrioOrder.key_order_neutral_prio. Qed.
 Print Assumptions C15_key_order_neutral_prioritised.
@@ -154,6 +159,7 @@ Theorem C15_marks_neutral_prioritised : forall e s0 sts s0' sts',
   Forall MergePrio.NewZ (s0 :: sts) -> Forall MergePrio.NewZ (s0' :: sts') ->
   forallb is_dictk (s0 :: sts) = true -> forallb is_dictk (s0' :: sts') = true ->
   map MergePrio.perase (s0 :: sts) = map MergePrio.perase (s0' :: sts') ->
+  UpdateP.hcompat (MergePrio.perase s0) (map MergePrio.perase sts) ->
   exists n m, flatten e (s0 :: sts) = Ok n /\ flatten e (s0' :: sts') = Ok m /\ MergePrio.perase n = MergePrio.perase m.
 Proof. exact PrioLaws.same_image_same_result. Qed.
 Print Assumptions C15_marks_neutral_prioritised.
